@@ -42,7 +42,7 @@ def dispatch (prop : String) (input : String) (impl : String) : String × String
   | "C12" => ("=", Sym.Drv.judge impl, "")
   | "C18" => C18.Drv.judge input impl
   | "C20" => (C20.Drv.handle input, C20.Drv.oracle input impl, "")
-  | "C09" => (C09.Drv.handle input, C09.Drv.oracle input impl, C09.Drv.tags input)
+  | "C09" => (C09.Drv.handle input, C09.Drv.oracle input impl, C09.Drv.tags input impl)
   | _ => ("unknown-property", "unknown-property", "")
 
 partial def loop (prop : String) (hin hout : IO.FS.Stream) : IO Unit := do
